@@ -181,8 +181,12 @@ PROPS = {
                 ("dec", "u64b", "optional '-' + 6 symbolic digits", False),
             ]
         ] + [
+            {"engine": "E2", "module": "parser", "harness": "h_str_roundtrip_3", "functions": ["writer::Writer::add_quoted_string", "parser::unescape_string"],
+             "bound": "every string of 3 chars over the escape alphabet: the written token denotes the same value", "timeout": 300, "extra_modules": ["tokenizer"]},
+            {"engine": "E2", "module": "parser", "harness": "h_str_roundtrip_unicode_2", "functions": ["writer::Writer::add_quoted_string", "parser::unescape_string"],
+             "bound": "multi-byte character + 2 chars over the escape alphabet", "timeout": 300, "extra_modules": ["tokenizer"]},
             {"engine": "E2", "module": "lib", "harness": "h_ifdata_uninterpreted", "functions": ["ifdata::parse_unknown_ifdata_start", "ifdata::parse_unknown_ifdata", "ifdata::parse_unknown_taggedstruct", "a2ml::GenericIfData::write_item"],
-             "bound": "8 payloads of an IF_DATA no specification describes: small / negative / hex / > 32 bit decimal / > 32 bit hex / float / string+ident / nested blocks", "timeout": 300, "extra_modules": ["tokenizer"]},
+             "bound": "11 payloads of an IF_DATA no specification describes: small / negative / hex / > 32 bit decimal / > 32 bit hex / floats / string+ident / nested blocks / repeated sibling blocks / repeated keywords", "timeout": 300, "extra_modules": ["tokenizer"]},
         ],
     },
     "C01": {
@@ -204,6 +208,12 @@ PROPS = {
              "bound": "every accepted string token with %d inner bytes over the same alphabet: second load/write cycle is a fixpoint" % n, "timeout": 300, "extra_modules": ["tokenizer"], "quick": n <= 3}
             for n in (2, 3, 4)
         ] + [
+            {"engine": "E2", "module": "parser", "harness": "h_str_roundtrip_unicode_%d" % n, "functions": ["writer::Writer::add_quoted_string", "tokenizer::tokenize_core", "parser::ParserState::get_string", "parser::unescape_string"],
+             "bound": "a multi-byte character (2, 2+1 or 4 bytes) + every string of %d chars over the escape alphabet + U+00E9" % n, "timeout": 300, "extra_modules": ["tokenizer"], "quick": n <= 2}
+            for n in (1, 2, 3)
+        ] + [
+            {"engine": "E2", "module": "parser", "harness": "h_float_roundtrip", "functions": ["writer::Writer::add_float", "tokenizer::tokenize_core", "parser::ParserState::get_double"],
+             "bound": "30 concrete f64 values (zero, tiny, subnormal, huge, format thresholds 1e-4 / 1e10, values needing 17 digits); enumerated, not symbolic", "timeout": 300, "extra_modules": ["tokenizer"]},
             {"engine": "E2", "module": "lib", "harness": "h_ifdata_definitions", "msg_prefix": "C01", "functions": ["load_from_string", "tokenizer::handle_a2ml", "A2ml::stringify", "a2ml::GenericIfData::write", "A2lFile::write_to_string"],
              "bound": "5 A2ML definitions x {conforming, deviating IF_DATA} x {LF, CRLF}: reload equal, second write identical", "timeout": 400, "extra_modules": ["tokenizer"]},
         ],
@@ -231,6 +241,10 @@ PROPS = {
              "bound": "4 gaps inside a MEASUREMENT, each from {space, LF, blank line, CRLF} (256 layouts)", "timeout": 400, "extra_modules": ["tokenizer"], "validate": 40},
             {"engine": "E2", "module": "lib", "harness": "h_layout_blocks", "functions": ["load_from_string", "tokenizer::tokenize_core", "parser::ParserState::get_line_offset", "parser::ParserState::get_next_tag_or_comment", "writer::Writer::add_group", "A2lFile::write_to_string"],
              "bound": "3 gaps between block-level elements, each from {LF, blank line, block comment, line comment, multi-line block comment, inline block comment, CRLF} (343 layouts)", "timeout": 400, "extra_modules": ["tokenizer"], "validate": 40},
+            {"engine": "E2", "module": "lib", "harness": "h_layout_ifdata", "functions": ["load_from_string", "tokenizer::handle_a2ml", "ifdata::parse_unknown_ifdata_start", "ifdata::parse_unknown_taggedstruct", "a2ml::GenericIfData::write_item", "A2ml::stringify"],
+             "bound": "0-2 blank lines before /end A2ML x 4 gaps inside an uninterpreted IF_DATA with two nested blocks, each from {space, LF, blank line, CRLF} (768 layouts)", "timeout": 600, "extra_modules": ["tokenizer"], "validate": 40, "quick": False},
+            {"engine": "E2", "module": "lib", "harness": "h_layout_ifdata_small", "functions": ["load_from_string", "tokenizer::handle_a2ml", "ifdata::parse_unknown_taggedstruct", "a2ml::GenericIfData::write_item"],
+             "bound": "0-2 blank lines before /end A2ML x 2 gaps (before /end INNER, before /end OUTER) from {space, LF, blank line, CRLF} (48 layouts)", "timeout": 400, "extra_modules": ["tokenizer"], "validate": 20},
         ],
     },
     "C11": {
